@@ -3,10 +3,26 @@
 import json, os, subprocess
 V = os.path.dirname(os.path.dirname(os.path.abspath(__file__)))
 
-HOOK_COMMITS = ["189fd6a"]
+HOOK_COMMITS = ["189fd6a", "97bf5b6", "790267e"]
 
 # id -> (technique, level text, level note, design ref)
 CLAIMED = {
+ "C02": ("Lean 4 proof that the transcribed receive path (WritePacket / tryParsePackage parse-or-rollback loop; packet reader header-then-body loop) yields the same events for every packetisation and read partition, for any parser family with the incremental law, instantiated with the transcribed package decoders + correspondence with the real Channel.WritePacket and the real reader goroutine",
+         "Proof: for every response that parses whole, every cut of it into packet bodies (any number, any sizes incl. 1-byte bodies) produces exactly the events of the single-packet delivery — same packages, hook calls, errors, same order, each once — because every parser the channel can select satisfies the incremental law (C07, per decoder; instantiated in Props/C02/Concrete for the decoders of the Basic and Cursor groups; ROW/PARAMS/formats follow with the fields group); the packet reader delivers the same packets for every partition of the byte stream into reads incl. reads that split the 8-byte header (Props/C14 c02_chunking_irrelevant). Tied to the code by feeding the real Channel.WritePacket every single cut, all pairs of cuts, random cut sets, all 2^(n-1) cut sets of short responses and header-only packets (oracle: same as the whole-response run of the real code) and by driving the real reader goroutine over an in-memory transport with read schedules.",
+         "Trusted: Lean kernel; hand transcription of channel.go's receive loop and of packet.go/packetHeader.go tied by the harness; PacketQueue as byte FIFO (C15); responses built from the package kinds the codec model covers so far; net.Conn read semantics.",
+         "DESIGN.md §7 C02"),
+ "C03": ("Lean 4 theorems over the transcribed receive loop (end-of-message handling, synthetic DONE) and the transcribed NextPackageUntil, incl. an induction over histories of responses + correspondence with the real WritePacket/NextPackageUntil on random histories",
+         "Proof: for every history of responses, each parsing whole and each cut into packets in any way, the packages delivered are the concatenation of what each response delivers on its own: its pass-through packages in order then one final DONE supplied by the library unless the response's own last recorded package is a DONE with final status (c03_responses_isolated; false before the repair 58e2a2c, where the decision leaked from the previous response); draining with a nil callback or after a callback error consumes exactly up to and including that final DONE and leaves the next response untouched (c03_drain_exact, c03_rounds_isolated); instantiated with the transcribed decoders. Tied to the code by random histories of 1..4 responses read round by round with the real NextPackageUntil and succeeding, nil, failing and early-stopping callbacks.",
+         "Trusted: Lean kernel; hand transcriptions of the receive loop and of NextPackageUntil tied by the harness; a DONE with final status is the last package of its response; waiting for packets is the model outcome `blocked` (wall-clock: C13/C14); the tx-side Reset after a message is C01's.",
+         "DESIGN.md §7 C03"),
+ "C11": ("Lean 4 theorems over the transcribed handleSpecialPackage / hook dispatch inside the receive loop and the EED collection of NextPackageUntil + correspondence with the real code (hooks registered before and between responses)",
+         "Proof: for every packetisation the events of a response are those of its packages in order (c11_events_of_any_cut: a retry after a fragmented package calls no hook twice, because special handling happens after a successful parse only); a non-informational EED calls every registered hook exactly once in registration order and is then delivered; an informational EED calls nothing and is not delivered; an ENVCHANGE applies PACKSIZE and calls every hook once per member with type/old/new in member order and is not delivered; when the callback fails the error carries the EED packages seen so far in order (c11_error_carries_messages); instantiated with the transcribed EED/ENVCHANGE decoders. Tied to the code by random histories with 0..2 initial hooks of each kind, hooks added between responses and between packets, and callbacks that succeed, are nil or fail.",
+         "Trusted: Lean kernel; hand transcriptions tied by the harness; the hook lists' mutex and calls from other goroutines are not modelled (hooks are registered from the consumer's goroutine between packets); errors.Is on the returned error is checked on the real code only.",
+         "DESIGN.md §7 C11"),
+ "C14": ("Lean 4 theorems over the transcribed packet reader (header loop, body loop, EOF/timeout handling) and the receive loop: clean prefix for every truncation point + the real reader goroutine over an in-memory transport that ends at every byte offset",
+         "Proof: for every list of packets, every byte offset k at which the stream ends, every read schedule and every kind of end (EOF, error, hang) the reader delivers exactly the packets that lie completely within the first k bytes, in order, and then reports the failure (or waits, for a hanging transport, bounded by the read timeout which is a parameter); the channel emits from the first k bytes of a response exactly the events of the packages that have arrived completely and no synthetic final DONE before the EOM packet is complete (c14_channel_clean_prefix, instantiated with the transcribed decoders). Tied to the code by running the real reader goroutine on streams of 1..3 packets cut at every offset with reset / hang / EOF. Partial: the wall-clock bound (read timeout) is observed, not proved; failures during a request write are C13's scenarios.",
+         "Trusted: Lean kernel; hand transcription of packet.go/packetHeader.go/conn.go's read loop tied by the harness; net.Conn read semantics; PacketReadTimeout = 1 s in the harness.",
+         "DESIGN.md §7 C14"),
  "C06": ("Lean 4 round-trip / length-field / layout theorems over shallow parser-monad transcriptions of every package codec + registry harness (real WriteTo/ReadFrom vs model, independent TDS-layout encoders/decoders)",
          "Proof, per package kind: decoding what the encoder wrote gives back the fields (up to the documented normalisation) and consumes exactly the bytes written; every length/count field equals what follows; server-only packages decode from an independently written layout encoder, client-only ones are recovered by an independent decoder; capability n is bit n%8 of byte len-1-n/8 for every mask length and subset; the login record clauses are in Props/C09 (regenerated layout). The models are tied to the code by the registry harness over every kind's generator. Defects found and repaired: EED length, ERROR reader, RETURNSTATUS token, CURUPDATE optional statement.",
          "Trusted: Lean kernel; hand transcriptions of ReadFrom/WriteTo tied by the harness; the TDS layouts written from knowledge of the protocol (no server available offline); PacketQueue as byte FIFO (C15).",
